@@ -33,8 +33,16 @@ Fixpoint expand (segs : list seg) : list N :=
   | Arith n p dp o d :: r => arith (N.to_nat n) p dp o d (expand r)
   end.
 
-(* a 64-byte signature: two prefix bytes and 62 bytes given as one little-endian number *)
-Definition sg (p0 p1 t : N) : list N := p0 :: p1 :: le_enc 62 t.
+(* 64-byte signatures of the small runs: two prefix bytes, then either 62 bytes expanded from a 64-bit tag
+   (the harness builds them the same way; only prefix and hash of a signature matter to bucketteer) or
+   62 bytes given as one little-endian number *)
+Fixpoint words (n : nat) (x : N) : list N :=
+  match n with
+  | O => []
+  | S m => le_enc 8 x ++ words m ((x * 6364136223846793005 + 1442695040888963407) mod 18446744073709551616)
+  end.
+Definition sg (p0 p1 t : N) : list N := p0 :: p1 :: firstn 62 (words 8 t).
+Definition sgx (p0 p1 t : N) : list N := p0 :: p1 :: le_enc 62 t.
 
 (* ---------- memoised hash (extensionally XXH.xxh64) ---------- *)
 Fixpoint assoc (tbl : list (list N * N)) (s : list N) : option N :=
@@ -42,7 +50,15 @@ Fixpoint assoc (tbl : list (list N * N)) (s : list N) : option N :=
   | [] => None
   | (k, v) :: r => if list_eqb k s then Some v else assoc r s
   end.
-Definition mk_tbl (sigs : list (list N)) : list (list N * N) := map (fun s => (s, xxh64 s)) sigs.
+Fixpoint mk_tbl_from (tbl : list (list N * N)) (sigs : list (list N)) : list (list N * N) :=
+  match sigs with
+  | [] => tbl
+  | s :: r => match assoc tbl s with
+              | Some _ => mk_tbl_from tbl r
+              | None => mk_tbl_from ((s, xxh64 s) :: tbl) r
+              end
+  end.
+Definition mk_tbl (sigs : list (list N)) : list (list N * N) := mk_tbl_from [] sigs.
 Definition memo_hash (tbl : list (list N * N)) (s : list N) : N :=
   match assoc tbl s with Some h => h | None => xxh64 s end.
 
@@ -52,12 +68,27 @@ Proof.
   apply andb_prop in H. destruct H as [H1 H2]. apply N.eqb_eq in H1. subst. f_equal. auto.
 Qed.
 
+Definition tbl_ok (tbl : list (list N * N)) : Prop := forall k v, In (k, v) tbl -> v = xxh64 k.
+
+Lemma assoc_ok tbl s h : tbl_ok tbl -> assoc tbl s = Some h -> h = xxh64 s.
+Proof.
+  intros Hok. induction tbl as [|[k v] tbl IH]; cbn [assoc]; [discriminate|].
+  destruct (list_eqb k s) eqn:E.
+  - intros H; inversion H; subst. apply list_eqb_eq in E. subst. apply (Hok s h). now left.
+  - apply IH. intros k' v' Hin. apply Hok. now right.
+Qed.
+
+Lemma mk_tbl_from_ok sigs : forall tbl, tbl_ok tbl -> tbl_ok (mk_tbl_from tbl sigs).
+Proof.
+  induction sigs as [|s r IH]; intros tbl Hok; cbn [mk_tbl_from]; auto.
+  destruct (assoc tbl s); apply IH; auto.
+  intros k v [E|Hin]; [inversion E; subst; reflexivity|now apply Hok].
+Qed.
+
 Lemma memo_hash_is_xxh64 sigs s : memo_hash (mk_tbl sigs) s = xxh64 s.
 Proof.
-  unfold memo_hash. induction sigs as [|k sigs IH]; [reflexivity|]. cbn [mk_tbl map assoc].
-  destruct (list_eqb k s) eqn:E.
-  - apply list_eqb_eq in E. now subst.
-  - exact IH.
+  unfold memo_hash. destruct (assoc (mk_tbl sigs) s) as [h|] eqn:E; [|reflexivity].
+  eapply assoc_ok; [|exact E]. apply mk_tbl_from_ok. intros k v [].
 Qed.
 
 (* ---------- observations ---------- *)
@@ -95,7 +126,9 @@ Definition check_case (c : case) : bool :=
     let w := puts H sigs in
     forallb (fun pr : probe => Bool.eqb (writer_has H w (fst pr)) (fst (snd pr))) probes
     && match seal ver m w with
-       | Ok f' => sealed && read_probes H ver (expand gofile) probes && read_probes H ver f' probes
+       | Ok f' => let gf := expand gofile in
+                  sealed && read_probes H ver gf probes
+                  && (if list_eqb f' gf then true (* same bytes, same answers *) else read_probes H ver f' probes)
        | Err => negb sealed
        | OutOfFuel => false
        end
